@@ -141,3 +141,15 @@ Example C01_calc2_ex_queued :
   r_roots rs = 0%nat /\ pending C01_calc2_ex (r_st rs) = [PLeaf 2; PLeaf 3; PSched 10 1] /\
   r_queue rs = [(1, 10)]%nat.
 Proof. vm_compute. repeat split. Qed.
+
+(* [stage 4] a completion whose value's copy throws (OValT): stop_when's store throws out of set_value, the
+   completion is re-delivered (OValK) and the leaf completes with set_error instead -- still exactly one root
+   completion, and the other branch keeps waiting for its (non-reactive) leaf until that completes *)
+Example C01_calc2_ex_throw :
+  let e := Bin BWhenAll (Un UIntoVar (Bin BStopWhen (Leaf 1) (LeafN 2)))
+                        (Bin BLetV (Leaf 3) (Bin BSeq (Leaf 4) (Sched 10 1))) in
+  let rs1 := exec e false [EvLeaf 1%nat (OValT 5) 0%nat] in
+  let rs2 := exec e false [EvLeaf 1%nat (OValT 5) 0%nat; EvLeaf 3%nat (OValT 6) 0%nat] in
+  r_roots rs1 = 0%nat /\ pending e (r_st rs1) = [PLeaf 3] /\
+  r_roots rs2 = 1%nat /\ count_roots (r_tr rs2) = 1%nat /\ r_st rs2 = OFin.
+Proof. vm_compute. repeat split. Qed.
